@@ -269,8 +269,10 @@ class VariableSetProcessor(Collector):
         if var_id is None:
             name = type_name(type(node_value.value))
             var_id = self.new_var_id(identity_hash_id)
-            self.append_variable(var_id, Variable(name, '%s@%s' % (name, identity_hash_id), identity_hash_id, [], False))
-        return VariableResponse(VariableId(var_id, node_value.name, [], node_value.original_name), process_children=False)
+            variable = Variable(name, '%s@%s' % (name, identity_hash_id), identity_hash_id, [], False)
+            self.append_variable(var_id, variable)
+        variable_id = VariableId(var_id, node_value.name, [], node_value.original_name)
+        return VariableResponse(variable_id, process_children=False)
 
     def check_var_count(self):
         """Check if we have processed our max set of variables."""
